@@ -17,7 +17,16 @@
 (* COMPOSITE families (a distribution wrapping an inner Gaussian:          *)
 (* regularized / constrained Gaussians, log-normal): CondFactor conditions *)
 (* one on its parameter (a copy), MutateCopy is the user assigning a       *)
-(* parameter of a derived COPY - which changes that copy and nothing else. *)
+(* parameter of a derived COPY - which changes that copy and nothing else   *)
+(* (for a derived likelihood: switching finite differences on / off);       *)
+(* MutateOriginal is the user assigning a parameter of a stand-alone        *)
+(* ORIGINAL after copies were derived from it: the copies made earlier are  *)
+(* unchanged.  ToLikelihood has two realisations in the code: conditioning   *)
+(* on the data alone, y(y = data), gives a likelihood of a COPY; the method *)
+(* to_likelihood(data) gives a VIEW of the distribution it is called on     *)
+(* ("enable_FD: call enable_FD of the underlying distribution"): a view has *)
+(* no switches of its own, so MutateCopy does not apply to it.  The replay  *)
+(* makes both at every ToLikelihood step and follows both.                  *)
 (*                                                                         *)
 (* Named deviations (FALSE in the deciding configuration):                 *)
 (*   DevConstOnOriginal - reduction adds the constants of the evaluated    *)
@@ -26,7 +35,8 @@
 (*        them on in the original                                          *)
 (*   DevSharedInner     - a copy shares its inner (wrapped) distribution   *)
 (*        with its original: assigning a parameter of the copy changes the *)
-(*        original as well                                                 *)
+(*        original as well (and, for MutateOriginal, a changed original    *)
+(*        shows through in the copies derived from it earlier)             *)
 (***************************************************************************)
 EXTENDS Integers, Sequences, FiniteSets, TLC, Json
 
@@ -37,7 +47,7 @@ VARIABLES objs,   \* sequence of object identities
           hist    \* sequence of actions <<name, object, argument>>
 vars == <<objs, hist>>
 
-Obj(kind, fixed, origin, name) == [kind |-> kind, fixed |-> fixed, const |-> {}, fd |-> FALSE, name |-> name, origin |-> origin, ver |-> 0]
+Obj(kind, fixed, origin, name) == [kind |-> kind, fixed |-> fixed, const |-> {}, fd |-> FALSE, name |-> name, origin |-> origin, ver |-> 0, view |-> FALSE]
 
 Init == /\ objs = <<Obj("joint", {}, 0, 0)>> \o [v \in 1..N |-> Obj("factor", {}, 0, v)]
                   \o [c \in 1..K |-> Obj("composite", {}, 0, N + c)]
@@ -63,10 +73,10 @@ Condition(o, S) ==
                      ELSE objs[i]]
     /\ hist' = Append(hist, <<"condition", o, SortedSeq(S)>>)
 
-ToLikelihood(o) ==
+ToLikelihood(o, m) ==
     /\ Room /\ objs[o].kind = "factor"
-    /\ objs' = Append(objs, Obj("lik", {objs[o].name}, o, objs[o].name))
-    /\ hist' = Append(hist, <<"to_likelihood", o, <<>>>>)
+    /\ objs' = Append(objs, [Obj("lik", {objs[o].name}, o, objs[o].name) EXCEPT !.view = (m = "method")])
+    /\ hist' = Append(hist, <<"to_likelihood", o, <<m>>>>)
 
 \* a stand-alone conditional distribution conditioned on its parameter: a new object, the original untouched
 CondFactor(o) ==
@@ -77,12 +87,22 @@ CondFactor(o) ==
 \* the user assigns a parameter of a DERIVED object (never of an original): only that object changes
 MutateCopy(o) ==
     /\ Len(hist) < MaxDepth
-    /\ objs[o].origin # 0 /\ objs[o].kind \in {"factor", "composite"}
+    /\ objs[o].origin # 0 /\ objs[o].kind \in {"factor", "composite", "lik"} /\ ~objs[o].view
     /\ objs' = [i \in 1..Len(objs) |->
                   IF i = o THEN [objs[i] EXCEPT !.ver = @ + 1]
                   ELSE IF DevSharedInner /\ i = objs[o].origin THEN [objs[i] EXCEPT !.ver = @ + 1]
                   ELSE objs[i]]
     /\ hist' = Append(hist, <<"mutate_copy", o, <<>>>>)
+
+\* the user assigns a parameter of a stand-alone ORIGINAL: copies derived from it earlier are not affected
+MutateOriginal(o) ==
+    /\ Len(hist) < MaxDepth
+    /\ objs[o].origin = 0 /\ objs[o].kind = "composite"
+    /\ objs' = [i \in 1..Len(objs) |->
+                  IF i = o THEN [objs[i] EXCEPT !.ver = @ + 1]
+                  ELSE IF DevSharedInner /\ objs[i].origin = o THEN [objs[i] EXCEPT !.ver = @ + 1]
+                  ELSE objs[i]]
+    /\ hist' = Append(hist, <<"mutate_original", o, <<>>>>)
 
 CopyEnableFD(o) ==
     /\ Room /\ objs[o].kind \in {"factor", "cond", "composite"}
@@ -113,23 +133,25 @@ Observe(a, o) ==
 
 \* one NAMED disjunct per action, so that TLC's coverage report names each of them (an action never taken fails the run)
 DoCondition    == \E o \in Ids, S \in SUBSET V : Condition(o, S)
-DoToLikelihood == \E o \in Ids : ToLikelihood(o)
+DoToLikelihood == \E o \in Ids, m \in {"method", "call"} : ToLikelihood(o, m)
 DoCopyEnableFD == \E o \in Ids : CopyEnableFD(o)
 DoApplyModel   == \E o \in Ids : ApplyModel(o)
 DoCondFactor   == \E o \in Ids : CondFactor(o)
 DoMutateCopy   == \E o \in Ids : MutateCopy(o)
+DoMutateOriginal == \E o \in Ids : MutateOriginal(o)
 DoObserve      == \E o \in Ids, a \in {"logd", "gradient", "sample", "run_sampler", "gibbs", "bad_call", "rename_original"} : Observe(a, o)
-Next == DoCondition \/ DoToLikelihood \/ DoCopyEnableFD \/ DoApplyModel \/ DoCondFactor \/ DoMutateCopy \/ DoObserve
+Next == DoCondition \/ DoToLikelihood \/ DoCopyEnableFD \/ DoApplyModel \/ DoCondFactor \/ DoMutateCopy \/ DoMutateOriginal \/ DoObserve
 Spec == Init /\ [][Next]_vars
 
 \* ---- properties ------------------------------------------------------------------------
 \* nothing but creation: the identity of every existing object is unchanged by every action
 Frame == [][\A i \in 1..Len(objs) :
-              (hist'[Len(hist')][1] = "mutate_copy" /\ hist'[Len(hist')][2] = i) \/ objs'[i] = objs[i]]_vars
+              (hist'[Len(hist')][1] \in {"mutate_copy", "mutate_original"} /\ hist'[Len(hist')][2] = i) \/ objs'[i] = objs[i]]_vars
 \* a conditioned / derived copy keeps the name of its original
 NameKept == \A i \in Ids : (objs[i].origin # 0 /\ objs[i].kind \in {"lik", "model"}) => objs[i].name = objs[objs[i].origin].name
-\* originals never carry constants
-OriginalsClean == \A i \in 1..(N + 1 + K) : objs[i].const = {} /\ objs[i].fd = FALSE /\ objs[i].ver = 0
+\* originals never carry constants, and change only when the user assigns to them
+Assigned(i) == Cardinality({k \in 1..Len(hist) : hist[k][1] = "mutate_original" /\ hist[k][2] = i})
+OriginalsClean == \A i \in 1..(N + 1 + K) : objs[i].const = {} /\ objs[i].fd = FALSE /\ objs[i].ver = Assigned(i)
 
 Emitted == (Emit /\ Len(hist) = MaxDepth) =>
              PrintT("@@CASE " \o ToJson([kind |-> "objhist", n |-> N, k |-> K, hist |-> hist]) \o " @@END")
